@@ -225,7 +225,7 @@ def bound_ok(v, b) -> bool:
     return b is None or is_int(b) or (type_is(b, Constant) and (has_key(v.override_dict, b._name) or is_int(b._value) or is_float(b._value)))
 
 
-@contract("core.algorithm.fill_in_let:LetFiller.visit_Register", props=["C05"])
+@contract("core.algorithm.fill_in_let:LetFiller.visit_Register", props=["C05", "C06", "C14"])
 class VisitRegister:
     """a register or alias is re-declared with every let in its size or bounds replaced by its value in the chosen
     environment: ["register", name, size] / ["map", name, source name] / ["map", name, source name, start, stop,
